@@ -30,7 +30,8 @@
 EXTENDS Naturals, Sequences, FiniteSets, TLC, Json
 CONSTANTS MaxSteps, NSlots, Variant
 
-Kinds == {"generate", "from_bytes", "payload_new"}
+\* "payload_embedded": a payload key that is a field of a larger heap value, at an odd offset (the type has alignment 1)
+Kinds == {"generate", "from_bytes", "payload_new", "payload_embedded"}
 Slots == 1..NSlots
 Empty == [live |-> FALSE, kind |-> "none", secret |-> 0, block |-> 0]
 Shares == Variant \in {"SharedClone", "SharedLastWipes", "SharedRacy"}
